@@ -41,20 +41,46 @@ def _fields(place):
     return [(e["of"], e["n"]) for e in (place.get("p") or []) if isinstance(e, dict) and "n" in e and e.get("of") not in ("tuple", "closure", "", None)]
 
 
+def _rooted_in_param(fn, du, place):
+    """the place is reached from a parameter (or a closure capture) through field projections, derefs and plain reference copies only — not through a
+    reference some call returned (an element of a container: `self.graph[nx].data`), whose identity a field-based analysis cannot tell apart"""
+    if any(not (e == "deref" or (isinstance(e, dict) and ("n" in e or "downcast" in e))) for e in (place.get("p") or [])):
+        return False
+    l = place["l"]
+    for _ in range(8):
+        if 1 <= l <= fn.argc:
+            return True
+        d = du.single_def(l)
+        if d is None or d[2] != "assign":
+            return False
+        rv = d[3]["rv"]
+        if rv["k"] in ("ref", "copy_for_deref", "rawptr"):
+            q = rv["place"]
+        elif rv["k"] == "use" and lib.op_place(rv["op"]) is not None:
+            q = lib.op_place(rv["op"])
+        else:
+            return False
+        if any(not (e == "deref" or (isinstance(e, dict) and ("n" in e or "downcast" in e))) for e in (q.get("p") or [])):
+            return False
+        l = q["l"]
+    return False
+
+
 def direct_overwrites(fn):
-    """{(adt, field): [block…]} for `place.F = v` where F is the last named field of the destination"""
+    """{(adt, field): [block…]} for `place.F = v` where F is the last named field of the destination and the destination is a part of a parameter"""
     out = {}
+    du = lib.DefUse(fn)
     for bi, si, s in lib.stmts(fn):
         if s["k"] == "assign":
             fl = _fields(s["dst"])
             # only whole-field overwrites: the projection ends at the field (no index / deref / downcast after it)
             p = s["dst"].get("p") or []
-            if fl and isinstance(p[-1], dict) and "n" in p[-1]:
+            if fl and isinstance(p[-1], dict) and "n" in p[-1] and _rooted_in_param(fn, du, s["dst"]):
                 out.setdefault(fl[-1], []).append(bi)
     for bi, t in lib.calls(fn):
         fl = _fields(t["dst"])
         p = t["dst"].get("p") or []
-        if fl and isinstance(p[-1], dict) and "n" in p[-1]:
+        if fl and isinstance(p[-1], dict) and "n" in p[-1] and _rooted_in_param(fn, du, t["dst"]):
             out.setdefault(fl[-1], []).append(bi)
     return out
 
@@ -94,6 +120,28 @@ class Reentry:
                        and "::tests::" not in f.path and "::testing" not in f.path]
         self._w = {}
         self._r = {}
+        # ADTs of which the context holds exactly one instance: the context itself and what it embeds by value (also through Option / Box).  A field
+        # of an ADT that lives in a container (a symbol's data, a definition's location, a segment's pc) exists once per element; a field-based
+        # analysis cannot tell the elements apart, so those are left out.
+        self.singletons = set()
+        ctx_adt = None
+        for l in entry.locals[1:2]:
+            t = l["ty"].replace("&mut ", "").replace("&", "").strip()
+            ctx_adt = t
+        work = [ctx_adt] if ctx_adt in fx.adts else []
+        while work:
+            a = work.pop()
+            if a in self.singletons:
+                continue
+            self.singletons.add(a)
+            for v in fx.adts[a]["variants"][:1]:
+                for fld in v["fields"]:
+                    ty = fld["ty"]
+                    for wrap in ("core::option::Option<", "alloc::boxed::Box<"):
+                        if ty.startswith(wrap) and ty.endswith(">"):
+                            ty = ty[len(wrap):-1]
+                    if ty in fx.adts and ty not in self.singletons:
+                        work.append(ty)
 
     def leaf_summary(self, g, depth=2):
         """(overwrites, reads) of a helper that cannot re-enter: its own and those of non-re-entrant callees"""
@@ -193,6 +241,8 @@ class Reentry:
                 work.extend(succ[x])
             return seen
         for f, ws in sorted(W.items()):
+            if self.singletons and f[0] not in self.singletons:
+                continue
             rs = R.get(f, set())
             if not rs:
                 continue
